@@ -102,6 +102,8 @@ def order_job(job):
     S = None
     if job.get("gated", True):
         S = gate.Scheduler(seed=0, policy="random")
+        if wall:
+            S.tick_eps = 1e-6
         gate.install(S)
     out = dict(traces=[], events=[])
     try:
@@ -147,4 +149,75 @@ def order_job(job):
     finally:
         if S is not None:
             S.disable()
+    return out
+
+
+def wall_lifecycle_job(job):
+    """C05 under the wall clock (gate, virtual time): lifecycle histories (reset | step | run | stop ...) on one AsyncGraph.
+    Every call is preceded by a short (virtual) sleep of the user thread: rex's wall clock needs every step to take positive time.
+    Returns lifecycle events (logical deadlock, exception of a call, failed worker task) and order-only traces of the completed episodes."""
+    from rex.constants import Clock, RealTimeFactor
+    import rex.asynchronous as ra
+    cfg = job["cfg"]
+    S = gate.Scheduler(seed=0, policy="random")
+    S.tick_eps = 1e-6
+    gate.install(S)
+    out = dict(runs=[])
+    try:
+        nodes = continuous_nodes(cfg, job["seed"], wall=True, use_callback=False)
+        sup = nodes[cfg["sup"]]
+        g = ra.AsyncGraph(nodes=dict(nodes), supervisor=sup, clock=Clock.WALL_CLOCK, real_time_factor=RealTimeFactor.REAL_TIME)
+        g.set_record_settings(params=False, rng=False, inputs=False, state=False, output=False)
+        gs0 = g.init(jax.random.PRNGKey(job["seed"]))
+        g.warmup(gs0, jit_step=False)
+        eps = 0
+        for ri, run in enumerate(job["runs"]):
+            rr = dict(history=run["history"], sched=run["sched"], events=[], traces=[])
+            out["runs"].append(rr)
+            S.new_schedule(seed=run["sched"]["seed"], policy=run["sched"]["policy"])
+            style, gs, started = None, None, False
+            try:
+                for ci, call in enumerate(run["history"]):
+                    ra.time.sleep(0.003 + 0.001 * ((ci + ri) % 4))
+                    if call == "reset":
+                        if started:
+                            eps += 1
+                        probes.LOG.clear()
+                        gs, _ = g.reset(gs0.replace(eps=onp.int32(eps)))
+                        style, started = "step", True
+                    elif call in ("step", "step!"):
+                        gs, _ = g.step(gs)
+                    elif call == "run":
+                        if not started or style != "run":
+                            if started:
+                                eps += 1
+                            probes.LOG.clear()
+                            gs = gs0.replace(eps=onp.int32(eps))
+                            style, started = "run", True
+                        gs = g.run(gs)
+                    elif call == "stop":
+                        g.stop()
+                        S.quiesce()
+                        if started:
+                            try:
+                                rec = g.get_record()
+                                t = project(rec, probes.LOG.snapshot(), cfg, eps)
+                                t["id"] = f"{job['id']}/r{ri}e{eps}"
+                                t["first_eligible"] = False
+                                rr["traces"].append(t)
+                            except TypeError:
+                                pass  # a connection that consumed nothing (outside the properties)
+                            eps += 1
+                            started = False
+            except gate.LogicalDeadlock as e:
+                rr["events"].append(dict(kind="deadlock", detail=str(e)))
+                break
+            except Exception as e:
+                rr["events"].append(dict(kind="exception", detail="".join(traceback.format_exception(type(e), e, e.__traceback__))[-2000:]))
+                break
+            if S.task_errors:
+                rr["events"].append(dict(kind="task_error", detail=repr(S.task_errors[:3])))
+                S.task_errors.clear()
+    finally:
+        S.disable()
     return out
